@@ -60,7 +60,7 @@ let () =
         let e = expr_of (parse_sexp sx) in
         let lit_str = mk_lit_str esc in
         let (b, keys) = BindingMap.collect_keys BindingMap.bmc_new e in
-        let st0 = { ExprGen.next_priv = BinNums.N0; ExprGen.stmts = [] } in
+        let st0 = ExprGen.mk_gst BinNums.N0 in
         let stmts =
           (match kind with
            | "text" -> snd (TagGen.text_dynamic [] lit_str e b (Some keys) st0)
